@@ -284,4 +284,68 @@ theorem resolve_total_aux : ∀ fuel, ResolveTotal fuel
             | sig n w => exact ⟨_, rfl⟩
             | slice q i => exact ⟨_, rfl⟩
 
+/-! ### … and only for what has a denotation -/
+
+/-- the first two lines of `_list_slice` already ask for the parent's width and the index inside it -/
+theorem listSlice_ok_width {fuel : Nat} {parent : SConn} {idx : Index} {ls : List SConn} (h : listSlice fuel parent idx = .ok ls) :
+    ∃ w, (SConn.slice parent idx).width = .ok w := by
+  cases fuel with
+  | zero => rw [listSlice] at h; cases h
+  | succ fuel =>
+    rw [listSlice] at h
+    simp only [bind, Except.bind] at h
+    cases hw : parent.width with
+    | error e => simp [hw] at h
+    | ok pw =>
+      cases hi : sliceInner pw idx with
+      | error e => simp [hw, hi] at h
+      | ok inner => exact ⟨inner.width.toNat, by rw [width_slice, hw]; simp only [hi]⟩
+
+def ResolveOnlyDenoting (fuel : Nat) : Prop :=
+  (∀ c r, resolveSliceable fuel c = .ok r → ∃ w, c.width = .ok w) ∧
+  (∀ ps rs, resolveParts fuel ps = .ok rs → ∃ w, widthList ps = .ok w)
+
+theorem resolve_only_denoting : ∀ fuel, ResolveOnlyDenoting fuel
+  | 0 => by
+    refine ⟨?_, ?_⟩
+    · intro c r h; rw [resolveSliceable] at h; cases h
+    · intro ps rs h; rw [resolveParts] at h; cases h
+  | fuel + 1 => by
+    obtain ⟨ihR, ihP⟩ := resolve_only_denoting fuel
+    refine ⟨?_, ?_⟩
+    · intro c r h
+      cases c with
+      | sig n w => exact ⟨w, width_sig n w⟩
+      | slice p idx =>
+        rw [resolveSliceable] at h
+        simp only [bind, Except.bind] at h
+        cases hl : listSlice fuel p idx with
+        | error e => simp [hl] at h
+        | ok ls => exact listSlice_ok_width hl
+      | concat ps =>
+        rw [resolveSliceable] at h
+        split at h
+        · cases h
+        · simp only [bind, Except.bind] at h
+          cases hp : resolveParts fuel ps with
+          | error e => simp [hp] at h
+          | ok parts =>
+            obtain ⟨w, hw⟩ := ihP ps parts hp
+            exact ⟨w, by rw [width_concat]; exact hw⟩
+    · intro ps rs h
+      cases ps with
+      | nil => exact ⟨0, widthList_nil⟩
+      | cons p ps =>
+        rw [resolveParts] at h
+        simp only [bind, Except.bind] at h
+        cases hr : resolveSliceable fuel p with
+        | error e => simp [hr] at h
+        | ok r =>
+          cases hrest : resolveParts fuel ps with
+          | error e => simp [hr, hrest] at h
+          | ok rest =>
+            obtain ⟨a, ha⟩ := ihR p r hr
+            obtain ⟨b, hb⟩ := ihP ps rest hrest
+            exact ⟨a + b, by rw [widthList_cons, ha, hb]⟩
+
 end Hdl21
